@@ -71,6 +71,7 @@ func cmdRun(args []string) int {
 	budget := fs.Int64("budget", 20_000_000, "instruction budget per path")
 	prof := fs.String("cpuprofile", "", "write a CPU profile")
 	params := fs.String("params", "", "k=v,k=v harness parameters")
+	sched := fs.Int("sched", -1, "explore schedules with at most N preemptions")
 	fs.Parse(args)
 	if *prof != "" {
 		f, _ := os.Create(*prof)
@@ -96,6 +97,10 @@ func cmdRun(args []string) int {
 	cfg.LazyMake = *lazy
 	cfg.HangIsViolation = *hang
 	cfg.InstrBudget = *budget
+	if *sched >= 0 {
+		cfg.ExploreSchedules = true
+		cfg.MaxPreemptions = *sched
+	}
 	for _, kv := range strings.Split(*params, ",") {
 		if i := strings.IndexByte(kv, '='); i > 0 {
 			var v int64
